@@ -16,7 +16,7 @@ RULE = ("one PRNG(seed): hybrid tensors with 2..5 modes (sizes 1..5), per-mode f
         "guarantee for core mu and factor mu, dense unchanged, returned factor has shape (new rank, old rank) resp. (old rank, new rank), "
         "Q@R (resp. L@Q) contracted with the new factor reproduces the old core contracted with the old factor, and the neighbour "
         "equals R @ old right-unfolding (resp. old left-unfolding @ L); the structural identities are compared when both cores were 3-D.  "
-        "distinct = (op, format signature, shape, ranks, variant, mu history); non-trivial = always (>= 2 modes)")
+        "half of the multi-call histories of tensors with Tucker factors edit a FACTOR between two calls through the public API (tn.ttm with a square matrix along a factored mode, or a slice of it), so that the cores are still in the previous gauge while a factor is not orthonormal. distinct = (op, format signature, shape, ranks, variant, mu history); non-trivial = always (>= 2 modes)")
 TRUSTED = ["NumPy contraction of the cores (PT.dense) as the value of a tensor", "float64 slack terms listed in RULE"]
 ASSUMPTIONS = ["inputs are WFstd tensors (documented formats, outer TT ranks 1)"]
 
@@ -86,6 +86,20 @@ def cases(rng, tier):
         variant = rng.choice(VARIANTS)
         t = mk_tensor(rng, N, variant)
         out.append({"kind": "orth", "variant": variant, "t": t.to_json(), "mus": [rng.randint(-N, N - 1) for _ in range(rng.randint(1, 4))]})
+        fm = [n for n in range(N) if t.Us[n] is not None]
+        if fm and len(out[-1]["mus"]) >= 2 and rng.random() < 0.5:
+            # between two calls the tensor is edited through the public API in a way that touches a Tucker FACTOR only (the cores stay in
+            # the gauge the previous call left): a square matrix applied along a factored mode (tn.ttm) or a slice of that mode
+            pert = []
+            for _ in out[-1]["mus"][1:]:
+                n = rng.choice(fm); I = t.shape[n]
+                if rng.random() < 0.5 or I < 2:
+                    pert.append(["ttm", n, rng.randrange(1 << 30)])
+                else:
+                    a = rng.randint(0, I - 2); pert.append(["slice", n, a, rng.randint(a + 1, I)])
+                if rng.random() < 0.3:
+                    pert[-1] = None
+            out[-1]["perturb"] = pert
     for _ in range(n2):
         N = rng.choice([2, 2, 3, 3, 3, 4, 4, 5])
         variant = rng.choice(VARIANTS)
@@ -212,6 +226,25 @@ def run_orth(ctx, case):
     prev_tt = list(t.ranks()); prev_tt[0] = prev_tt[-1] = 1
     prev_tk = list(t.tranks())
     for step, mu in enumerate(case["mus"]):
+        pb = case.get("perturb")
+        if pb and step >= 1 and pb[step - 1] is not None and r.Us[pb[step - 1][1]] is not None:
+            p_ = pb[step - 1]; n = p_[1]
+            if p_[0] == "ttm":
+                I = x.shape[n]
+                A = np.random.RandomState(p_[2] % (1 << 31)).uniform(-1, 1, (I, I))
+                e = safe(lambda: tn.ttm(r, torch.tensor(A), dim=n))
+                x2 = np.moveaxis(np.tensordot(A, x, axes=(1, n)), 0, n)
+            else:
+                a, b = p_[2], min(p_[3], x.shape[n])
+                if a >= b:
+                    a, b = 0, x.shape[n]
+                key = tuple([slice(None)] * n + [slice(a, b)])
+                e = safe(lambda: r[key])
+                x2 = x[key]
+            if e[0] == "ok" and isinstance(e[1], tn.Tensor) and tuple(e[1].shape) == x2.shape:
+                r, x = e[1], x2
+                S = max(S, float(np.max(np.abs(x))) if x.size else S)
+                ctx.count("factor edited between calls:" + p_[0])
         res = safe(lambda: r.orthogonalize(mu))
         if res[0] == "err":
             report(ctx, case, op, pred, "raised", "step %d (mu=%d) raised %s: %s" % (step, mu, res[1], res[2])); ctx.count("impl_raise:" + res[1]); return
